@@ -10,7 +10,7 @@ use crate::panel::PEv;
 use crate::prng::Rng;
 use crate::props::draw::{case_hash, case_json};
 use crate::rig::{
-    self, CallResult, DispCfg, InitResult, Kind, ModelId, Tr, ALL_TR, BUILTIN, EXTERNAL,
+    self, CallResult, DispCfg, InitResult, Kind, ModelId, Tr, ALL_TR, EXTERNAL,
 };
 use crate::session::{Finding, Opened, Session};
 use crate::spec::{self, Ori};
@@ -54,6 +54,15 @@ fn c09_one(a: &mut Acc, stage: &str, idx: u64, cfg: &DispCfg) {
     }
     let desc = format!("{:?}/{:?}/{}x{}+{}+{}/{}/{}/{}", cfg.model, cfg.tr, cfg.w, cfg.h, cfg.ox, cfg.oy, cfg.rst, cfg.ori.0, cfg.order);
     a.case(&desc, true);
+    // a pairing the model refuses: a window that does not fit is still reported as such, with
+    // the hardware untouched; what happens with a window that fits is C11's business
+    let refused_pairing = cfg.model.is_builtin() && !cfg.model.supports(cfg.tr.kind());
+    if refused_pairing {
+        if want == InitResult::Ok {
+            return;
+        }
+        a.count("rejections_checked_on_a_pairing_the_model_refuses", 1);
+    }
     match Session::open(cfg) {
         Opened::Ready(_) => {
             if want != InitResult::Ok {
@@ -120,7 +129,7 @@ pub fn c09(args: &Args) -> Acc {
     }
     // boundary grid for every model
     if args.want_stage("grid") {
-        let mut models: Vec<ModelId> = BUILTIN.to_vec();
+        let mut models: Vec<ModelId> = crate::rig::builtin();
         models.extend(EXTERNAL);
         let vals = |f: u16| -> Vec<u16> {
             let f = f as u32;
@@ -153,7 +162,7 @@ pub fn c09(args: &Args) -> Acc {
             let ox = xs[((k / nx) % nx) as usize];
             let h = ys[((k / (nx * nx)) % ny) as usize];
             let oy = ys[((k / (nx * nx * ny)) % ny) as usize];
-            let trs: Vec<Tr> = ALL_TR.iter().copied().filter(|t| t.type_checks(m.bits()) && (!m.is_builtin() || m.supports(t.kind()))).collect();
+            let trs: Vec<Tr> = ALL_TR.iter().copied().filter(|t| t.type_checks(m.bits())).collect();
             let tr = trs[(idx % trs.len() as u64) as usize];
             let mut c = DispCfg::full(*m, tr);
             c.w = w;
@@ -172,7 +181,7 @@ pub fn c09(args: &Args) -> Acc {
     }
     if args.want_stage("random") {
         let n = args.n(1_000_000, 30_000_000);
-        let mut models: Vec<ModelId> = BUILTIN.to_vec();
+        let mut models: Vec<ModelId> = crate::rig::builtin();
         models.extend(EXTERNAL);
         let acc = par_cases(n, args.threads, args.case, |idx, a| {
             let mut rng = Rng::for_case(args.seed, "C09/random", &args.tier, idx);
@@ -187,7 +196,7 @@ pub fn c09(args: &Args) -> Acc {
                 }
             };
             let mut c = DispCfg::full(m, if m.bits() == 16 { *rng.pick(&[Tr::L1S, Tr::L1P8, Tr::L1P16]) } else { *rng.pick(&[Tr::L1S, Tr::L1P8]) });
-            if m.is_builtin() && !m.supports(c.tr.kind()) {
+            if m.is_builtin() && !m.supports(c.tr.kind()) && rng.bool() {
                 c.tr = Tr::L1P8;
             }
             c.w = pick(&mut rng, fw);
@@ -329,7 +338,7 @@ pub fn c11(args: &Args) -> Acc {
     // (a) through Builder, every type-checking pairing, L1 (exhaustive option grid) and L2
     if args.want_stage("builder") {
         let mut combos: Vec<(ModelId, Tr)> = Vec::new();
-        for m in BUILTIN {
+        for m in crate::rig::builtin() {
             for t in ALL_TR {
                 if t.type_checks(m.bits()) {
                     combos.push((m, t));
@@ -435,9 +444,10 @@ pub fn c11(args: &Args) -> Acc {
     // (b) Model::init called directly with recorders of all three kinds
     if args.want_stage("direct") {
         let kinds = [Kind::Serial, Kind::Par8, Kind::Par16];
-        let n = BUILTIN.len() as u64 * 3 * 128;
+        let all = crate::rig::builtin();
+        let n = all.len() as u64 * 3 * 128;
         let acc = par_cases(n, args.threads, args.case, |idx, a| {
-            let m = BUILTIN[(idx / (3 * 128)) as usize];
+            let m = all[(idx / (3 * 128)) as usize];
             let kind = kinds[((idx / 128) % 3) as usize];
             let (bgr, ori, invert, refresh) = opt_grid(idx);
             let mut cfg = DispCfg::full(m, Tr::L1S);
@@ -504,14 +514,14 @@ pub fn c11(args: &Args) -> Acc {
 pub fn c17(args: &Args) -> Acc {
     let mut total = Acc::new();
     let mut combos: Vec<(ModelId, Tr)> = Vec::new();
-    for m in BUILTIN.iter().chain(EXTERNAL.iter()) {
+    for m in crate::rig::builtin().iter().chain(EXTERNAL.iter()) {
         for t in ALL_TR {
             if t.type_checks(m.bits()) && (!m.is_builtin() || m.supports(t.kind())) {
                 combos.push((*m, t));
             }
         }
     }
-    let per = if args.quick() { 32 } else { 256 };
+    let per = if args.quick() { 2 * gen::MODULES.len() as u64 + 16 } else { 256 };
     let n = combos.len() as u64 * per;
     let acc = par_cases(n, args.threads, args.case, |idx, a| {
         let (m, t) = combos[(idx / per) as usize];
@@ -524,8 +534,18 @@ pub fn c17(args: &Args) -> Acc {
         cfg.refresh = refresh;
         cfg.rst = idx % 2 == 0;
         cfg.order = if rng.bool() { 0 } else { rng.below(10_080) as u16 };
-        if rng.bool() {
-            let (fw, fh) = m.fb();
+        let (fw, fh) = m.fb();
+        let modules: Vec<&(u16, u16, u16, u16)> = gen::MODULES.iter().filter(|g| g.0 as u32 + g.2 as u32 <= fw as u32 && g.1 as u32 + g.3 as u32 <= fh as u32).collect();
+        let k = (idx % per) as usize / 2;
+        if k < modules.len() {
+            // the geometries of real modules built on these controllers, systematically
+            let g = modules[k];
+            cfg.w = g.0;
+            cfg.h = g.1;
+            cfg.ox = g.2;
+            cfg.oy = g.3;
+            a.count("module_geometries_initialised", 1);
+        } else if rng.bool() {
             let (w, h, ox, oy) = gen::gen_window(&mut rng, fw, fh, u64::MAX);
             cfg.w = w;
             cfg.h = h;
@@ -551,6 +571,11 @@ pub fn c17(args: &Args) -> Acc {
                 if cfg.rst && s.tl.0.borrow().rst != Some(true) {
                     a.violate("main", idx, "reset-pin-not-high-at-return", format!("level {:?}", s.tl.0.borrow().rst), cfg.to_json());
                 }
+                // "leaves it high": the display owns the pin from now on; a pin handle that was
+                // dropped no longer drives the line (HAL pins return to high impedance on drop)
+                if cfg.rst && s.tl.0.borrow().rst_pins_dropped != 0 {
+                    a.violate("main", idx, "reset-pin-handle-dropped-during-init", "the reset pin object was dropped while the display is alive".to_string(), cfg.to_json());
+                }
                 if idx % 997 == 1 {
                     let head: Vec<String> = s.init_log.iter().take(6).map(|e| format!("{:?}", e)).collect();
                     a.sample(cfg.to_json().with("timeline_head", head));
@@ -572,6 +597,9 @@ pub fn c17(args: &Args) -> Acc {
                         Opened::Failed { init, .. } => a.violate("main", idx, "after-release/init-failed", format!("{:?}", init), cfg2.to_json()),
                         Opened::Ready(s2) => {
                             a.count("re_initialisations_checked", 1);
+                            if s2.tl.0.borrow().released_rst != Some(cfg.rst) {
+                                a.violate("main", idx, "release/reset-pin-not-returned", format!("release() returned a reset pin: {:?}; one was configured: {}", s2.tl.0.borrow().released_rst, cfg.rst), cfg.to_json());
+                            }
                             if let Err((sig, detail)) = reset_monitor(&s2.init_log, cfg2.rst) {
                                 a.violate("main", idx, format!("after-release/{}/{}", sig, if cfg2.rst { "reset-pin" } else { "no-reset-pin" }), format!("second init on a released interface: {}", detail), cfg2.to_json().with("first", cfg.to_json()));
                             }
@@ -598,7 +626,8 @@ pub fn c13(args: &Args) -> Acc {
         let mut rng = Rng::for_case(args.seed, "C13", &args.tier, idx);
         let mut cfg = gen::gen_cfg(&mut rng, &CfgOpts { external: idx % 4 == 0, l1: true, l2: true, max_l2_area: 64 });
         if idx % 4 != 0 {
-            cfg.model = BUILTIN[(idx % 14) as usize];
+            let all = crate::rig::builtin();
+            cfg.model = all[(idx % all.len() as u64) as usize];
             if !cfg.tr.type_checks(cfg.model.bits()) || !cfg.model.supports(cfg.tr.kind()) {
                 cfg.tr = Tr::L1P8;
             }
